@@ -17,6 +17,19 @@ if not core.hasComponent("openflow"):
   pox.openflow.launch()
 
 
+# concretisation of the spec's outcome "fatal": any errno a socket reports for a connection that is gone for
+# good - the property speaks of "a fatal socket error", not of one error family (EPIPE / ECONNRESET happen to
+# be ConnectionError subclasses in Python 3, ETIMEDOUT / EHOSTUNREACH / ENOTCONN ... are not)
+FATAL_ERRNOS = [errno.ECONNRESET, errno.ETIMEDOUT, errno.EPIPE, errno.EHOSTUNREACH, errno.ENOTCONN,
+                errno.ECONNABORTED, errno.ENETUNREACH]
+
+
+def fatal_error(salt):
+  import os
+  e = FATAL_ERRNOS[salt % len(FATAL_ERRNOS)]
+  return socket.error(e, os.strerror(e))
+
+
 class FakeSock(object):
   def __init__(self, ad, name, idx):
     self.ad = ad
@@ -50,7 +63,7 @@ class FakeSock(object):
         return n
       if self.terminal == "fatal":
         self.dead = True
-        raise socket.error(errno.ECONNRESET, "Connection reset by peer")
+        raise fatal_error(self.calls + len(self.accepted) + self.idx)
       raise socket.error(errno.EAGAIN, "Resource temporarily unavailable")
     o = self.script.pop(0) if self.script else {"k": "full", "n": len(data)}
     if o["k"] == "full":
@@ -63,7 +76,7 @@ class FakeSock(object):
     if o["k"] == "eagain":
       raise socket.error(errno.EAGAIN, "Resource temporarily unavailable")
     self.dead = True
-    raise socket.error(errno.ECONNRESET, "Connection reset by peer")
+    raise fatal_error(self.calls + len(self.accepted) + self.idx)
 
   def send(self, data, flags=0):
     ctl = self.ad.ctl
